@@ -409,8 +409,11 @@ def run(ctx):
             check_case(ctx, {"kind": "c", "hist": h, "extra": extra, "src": src})
         else:
             opts = {}
-            for kk, vals in (("html", [True, False]), ("typographer", [True, False]), ("breaks", [True, False]), ("xhtmlOut", [True, False]),
-                             ("langPrefix", ["l-", ""]), ("quotes", ["«»‹›", ["a", "b", "c", "d"]]), ("maxNesting", [3, 50]), ("linkify", [False])):
+            # (None / 0 / 1 are what callers pass for "off"/"on" besides the booleans; the routes must agree on them as well)
+            for kk, vals in (("html", [True, False, True, False, None, 0, 1]), ("typographer", [True, False, True, False, None, 1]), ("breaks", [True, False, None, 1]),
+                             ("xhtmlOut", [True, False, None, 0]), ("langPrefix", ["l-", "", "x y-"]),
+                             ("quotes", ["«»‹›", ["a", "b", "c", "d"], ["«\xa0", "\xa0»", "‹\xa0", "\xa0›"], ("``", "''", "`", "'"), ["<<", ">>", "<", ">"]]),
+                             ("maxNesting", [3, 50, 20, 100]), ("linkify", [False])):   # (options that have an attribute on OptionsDict)
                 if rng.random() < 0.4:
                     opts[kk] = rng.choice(vals)
             if opts:
